@@ -332,6 +332,10 @@ func (g *Gen) externalWrites(fn *ssa.Function, ws *WriteSet) {
 	case "encoding/xml.Unmarshal", "encoding/json.Unmarshal":
 		ws.Top = true
 		ws.TopWhy = fn.String()
+	case "(*encoding/xml.Encoder).Encode", "(*encoding/xml.Encoder).EncodeElement":
+		n, seq := encHeaps(g)
+		ws.Names[n] = true
+		ws.Names[seq] = true
 	case "fmt.Sscanf", "fmt.Sscan":
 		ws.Names[g.TE.CellHeap(types.Typ[types.Int])] = true
 		ws.Names[g.TE.CellHeap(types.Typ[types.Float64])] = true
